@@ -267,7 +267,7 @@ Definition open (ro : bool) (only : option (list name)) (when : time)
            (order : list name) (corder : list name) : prog handle :=
   if negb ro && (match only with Some (_ :: _) => true | _ => false end) then Fail E_ARGS else
   bind (match only with
-        | Some vs => Ret (apply_order_multi order vs, [PMerged; PCur], false)
+        | Some vs => Ret (apply_order_multi order vs, [PCur; PMerged], false)
         | None => Do (RList PCur) (fun r =>
                     match r with
                     (* a listed version that a concurrent commit retires before it is fetched is
